@@ -331,7 +331,7 @@ Definition effective (resumed : bool) (t : ticket) (h : hello) : hello :=
    3 dialling side: handshake accepted although the proven key is not the key
      the dialler intended to reach
    4 a dispatched message carries an identity whose public key the peer does
-     not own
+     not own (or no identity was recorded for it)
    5 messages dispatched although the handshake was refused, or (accepting side)
      although the declared identity differs from the proven key
    6 the honest node crashed or hung (neither served nor dropped the peer)
@@ -370,7 +370,7 @@ Definition prop_check (lv : level) (r : role) (s : suite) (holds : list key) (h 
   clause_if 1 (negb o_hs || match proven_key s h with Some k => holds_b holds k | None => false end) ++
   clause_if 2 (negb o_hs || fresh_proof_b s h) ++
   clause_if 3 (negb o_hs || match r with RDial e => opt_key_eqb (proven_key s h) e | RAccept => true end) ++
-  clause_if 4 (forallb (holds_b holds) o_stamp) ++
+  clause_if 4 ((length o_stamp =? o_disp) && forallb (holds_b holds) o_stamp) ++
   clause_if 5 ((o_disp =? 0) ||
                (o_hs && match r with
                         | RDial _ => true
